@@ -147,8 +147,17 @@ def homogeneous_case(rnd):
         rz = rz[::-1].copy()
     elif order == "shuffled":
         rz = numpy.array(rnd.sample(list(rz), nrec))
-    obj = hmclab.Distributions.LayeredRayTracing2D(inter, numpy.array([X]), rz)
+    picks = None
+    if rnd.random() < 0.5:
+        # observed picks on the clock of the recording (a non-zero origin time), and the homogeneous fit made first, as one does
+        # before an inversion: forward() is a function of the velocities alone
+        t0 = rnd.choice([0.25, -0.5, 1.0, 3.0])
+        picks = numpy.hypot(X, rz) / rnd.choice([1.5, 2.0, 2.5]) + t0
+    obj = hmclab.Distributions.LayeredRayTracing2D(inter, numpy.array([X]), rz, **({} if picks is None else {"traveltimes_observed": picks}))
     obj.parallel = False
+    if picks is not None and nrec >= 2:
+        with contextlib.redirect_stdout(io.StringIO()), numpy.errstate(all="ignore"):
+            obj.fit_homogeneous()
     numpy.random.seed(rnd.randrange(1 << 30))
     probs = []
     conv = 0
@@ -172,7 +181,7 @@ def homogeneous_case(rnd):
                 conv += 1
                 straight = math.hypot(X, rz[k]) / v
                 if abs(tts[k] - straight) > obj.tolerance / v + 1e-12:
-                    probs.append(("homogeneous", f"homogeneous medium v={v} (evaluation {step + 1} on the same object and model array), offset {X}, receivers {order} {list(rz)}, receiver depth {rz[k]}: "
+                    probs.append(("homogeneous", f"homogeneous medium v={v} (evaluation {step + 1} on the same object and model array{', after fit_homogeneous() on picks with an origin time' if picks is not None else ''}), offset {X}, receivers {order} {list(rz)}, receiver depth {rz[k]}: "
                                   f"travel time {tts[k]}, straight line {straight}, tolerance/velocity {obj.tolerance / v}"))
         try:
             tts += 1000.0          # what the caller does with the result must not matter
